@@ -9,12 +9,17 @@ pub mod c08;
 pub mod c09;
 pub mod c10;
 pub mod c11;
+pub mod c12;
 pub mod c13;
+pub mod c14;
+pub mod c15;
+pub mod c16;
 pub mod c17;
+pub mod c18;
 pub mod c19;
 
 use crate::engine::Prop;
 
 pub fn registry() -> Vec<Prop> {
-    vec![c01::prop(), c03::prop(), c04::prop(), c05::prop(), c06::prop(), c07::prop(), c08::prop(), c09::prop(), c10::prop(), c11::prop(), c13::prop(), c17::prop(), c19::prop()]
+    vec![c01::prop(), c03::prop(), c04::prop(), c05::prop(), c06::prop(), c07::prop(), c08::prop(), c09::prop(), c10::prop(), c11::prop(), c12::prop(), c13::prop(), c14::prop(), c15::prop(), c16::prop(), c17::prop(), c18::prop(), c19::prop()]
 }
